@@ -125,6 +125,9 @@ def s6(ctx):
             if eqb is not None and not eqb.d.get('derived'):
                 return t
             r = struct_eq(t[2][0], t[2][1])
+            if r is not None and sg(t[1]).endswith('::ne'):
+                # `a != b` is PartialEq::ne: the negation of the structural comparison
+                r = ('const', 1 - r[1]) if r[0] == 'const' else ('bin', 'Ne', r[2], r[3])
             return r if r is not None else t
         return t
 
@@ -556,7 +559,7 @@ def c06_mut(ctx):
             hosts.add(b.name)
     for hn in sorted(hosts):
         b = F.bodies[hn]
-        mut_targets = [l for l in b.arg_locals() if b.locals[l]['ty'].startswith('&mut ')]
+        mut_targets = [l for l in b.arg_locals() if b.locals[l]['ty'].startswith('&mut ') or 'ConcurrentOrderedBag<' in b.locals[l]['ty'] or 'ConcurrentBag<' in b.locals[l]['ty']]
         self_target = [l for l in b.arg_locals() if b.d.get('impl_trait') == COLLECT_INTO_CORE and b.local_name(l) == 'self']
         if not mut_targets and not self_target:
             continue
@@ -567,8 +570,19 @@ def c06_mut(ctx):
                 continue
             a0 = c['args'][0]
             base = a0
-            while base[0] in ('mut', 'field'):
-                base = base[1]
+            hops = 0
+            while base is not None and hops < 12:
+                hops += 1
+                if base[0] in ('mut', 'field', 'ref'):
+                    base = base[1]
+                elif base[0] == 'phi':
+                    # a target that is mutated inside a loop: where the loop-carried value started
+                    base = r.init.get((base[1], base[2]))
+                elif base[0] == 'call' and base[2] and term_method(base) in ('into_inner', 'unwrap_only_if_counts_match', 'into', 'from'):
+                    # the target unwrapped / converted from the by-value parameter that carries it
+                    base = base[2][0]
+                else:
+                    break
             if base not in names:
                 continue
             mth = c['t'].get('method') or ''
